@@ -68,6 +68,11 @@ pub fn run_xargs(ctx: &Ctx, flags: &[&str], initial: &[Vec<u8>], input: &[u8], s
 /// `find ARGS | xargs -0 fu-recorder` through a real pipe. Returns (find status, xargs status, invocations).
 /// `replace`: `xargs -0 -I{} recorder {}` (one run per path) instead of `xargs -0 recorder`
 pub fn run_pipe0(ctx: &Ctx, find_args: &[String], cwd: &std::path::Path, replace: bool) -> (i32, i32, Vec<Invocation>) {
+    run_pipe0_stack(ctx, find_args, cwd, replace, None)
+}
+
+/// the same with xargs under a stack limit (which fixes the ARG_MAX it sees: a quarter of the limit)
+pub fn run_pipe0_stack(ctx: &Ctx, find_args: &[String], cwd: &std::path::Path, replace: bool, stack: Option<u64>) -> (i32, i32, Vec<Invocation>) {
     let dir = ctx.scratch("pipe");
     let log = dir.join("log");
     let mut f = Command::new(ctx.bin("find"));
@@ -81,6 +86,16 @@ pub fn run_pipe0(ctx: &Ctx, find_args: &[String], cwd: &std::path::Path, replace
     if replace { x.arg("{}"); }
     x.current_dir(cwd).env("FU_REC_LOG", &log);
     x.stdin(Stdio::from(fout)).stdout(Stdio::null()).stderr(Stdio::null());
+    if let Some(st) = stack {
+        use std::os::unix::process::CommandExt;
+        unsafe {
+            x.pre_exec(move || {
+                let lim = libc::rlimit { rlim_cur: st as libc::rlim_t, rlim_max: st as libc::rlim_t };
+                if libc::setrlimit(libc::RLIMIT_STACK, &lim) != 0 { return Err(std::io::Error::last_os_error()); }
+                Ok(())
+            });
+        }
+    }
     let xst = x.status().expect("run xargs");
     let fst = fchild.wait().expect("wait find");
     let inv = parse_log(&log);
